@@ -47,7 +47,7 @@ const (
 )
 
 // c15Frozen lists the differences between the code's tables and the lists above.
-func c15Frozen() []string {
+func c15Frozen(mintAddressOverridden bool) []string {
 	var out []string
 	if len(node.DeveloperRewardAddreses) != len(c15DevList) {
 		out = append(out, fmt.Sprintf("developer list has %d entries, the fixed list %d", len(node.DeveloperRewardAddreses), len(c15DevList)))
@@ -70,7 +70,7 @@ func c15Frozen() []string {
 			out = append(out, "mint table lacks "+t)
 		}
 	}
-	if node.GlobalMintAddress != c15MintAddress {
+	if !mintAddressOverridden && node.GlobalMintAddress != c15MintAddress {
 		out = append(out, "mint address is "+node.GlobalMintAddress)
 	}
 	if node.GlobalBurnAddress != c15BurnAddress {
